@@ -436,7 +436,8 @@ impl SrvState {
             st.enter();
             st.apply(&a, &mut sink, &[0]);
         }
-        assert!(sink.violations.is_empty(), "priming must not violate anything: {:?}", sink.violations);
+        // (what the priming steps themselves violate is reported by the caller, which runs them
+        // once more through `replay_with_prime`)
         st
     }
 
